@@ -16,7 +16,7 @@ reg("C10", "other", [T.t_rc], "dev", "dev")
 reg("C01", "other", [T.t_bij], "dev", "dev")
 reg("C04", "other", [T.t_codes], "dev", "dev")
 import r_len as L
-reg("C02", "proof", [L.l_eq, L.l_hdr, L.l_fixed, L.s_dbg], "dev", "dev")
+reg("C02", "other", [L.l_eq, L.l_hdr, L.l_fixed, L.s_dbg], "dev", "dev")
 PROPS["C10"]["rules"].append(L.t_ctl)
 import r_props as P
 PROPS["C04"]["rules"] += [P.t_props, P.h_proplen, P.h_dup, P.h_bytevals, P.l_propdec]
@@ -39,3 +39,13 @@ PROPS["C18"]["rules"] += [C.h_tn, C.h_ctor]
 reg("C17", "other", [C.h_fields, C.h_accessors, C.h_ctor], "dev", "dev")
 PROPS["C13"]["rules"] += [C.s_gate, C.h_protoread]
 PROPS["C03"]["rules"] += [C.s_unsafe, C.h_utf8]
+import r_panic as PN
+PROPS["C03"]["rules"] += [PN.s_panic_decode, PN.s_loop, PN.s_alloc, T.t_varint_readers, PL.h_cap, PL.h_pending]
+import r_body as B
+PROPS["C08"]["rules"] += [B.l_consume, P.l_propdec, P.h_proplen]
+PROPS["C04"]["rules"] += [B.t_bits, B.h_checked_sub, B.l_consume]
+PROPS["C10"]["rules"] += [B.t_bits]
+reg("C11", "other", [L.l_eq, B.l_cover, T.t_bij, PN.s_panic_encode, T.t_width], "dev", "dev")
+PROPS["C01"]["rules"] += [L.l_eq, B.l_cover, P.l_propdec]
+PROPS["C07"]["rules"] += [B.l_consume]
+PROPS["C02"]["rules"] += [PN.s_panic_encode, T.t_width]
